@@ -55,6 +55,11 @@ class DeleteApplication(BaseMutation):
                 simulation.get_model_sig(model_name)
                 app_sig.remove_model_sig(model_name)
 
+        if app_sig.is_empty():
+            # Nothing is left of the application. Remove its signature, so
+            # that it's no longer considered to be a deleted application.
+            simulation.project_sig.remove_app_sig(app_sig.app_id)
+
     def mutate(self, mutator):
         """Schedule an application deletion on the mutator.
 
